@@ -206,6 +206,12 @@ fn run_trip(ctx: &Ctx, id: u64, st: &mut Stats) {
         ma.step();
     }
     let ok = make_hostile(&mut ma, &mut rng, kind);
+    // "at any later moment": meanwhile the host may have attached an I/O extender that claims the
+    // ULA port (a host-side keyboard, say) – restoring the border is not a port write of the program
+    if rng.chance(1, 4) {
+        ma.emu.set_io_extender(crate::host::LogExt::new(vec![(0xFFFF, 0x00FE)]));
+        *st.by_kind.entry("receiver-with-io-extender-on-00fe".into()).or_insert(0) += 1;
+    }
     *st.by_kind.entry(format!("hidden-state-{}", if ok { "established" } else { "not-established" })).or_insert(0) += 1;
     let po = observe_prior(&mut ma, kind, ok);
     let mut mb = Machine::new(Cfg::of(is128));
